@@ -1,5 +1,5 @@
 """Human-written level text per claimed property (consumed by gen_manifest.py)."""
-HOOK_COMMITS = ["e648131", "c2c8839"]
+HOOK_COMMITS = ["e648131", "c2c8839", "e6e5513"]
 NOT_YET = {}
 META = {
     "C28": {
@@ -76,5 +76,15 @@ META = {
         "text": "Interleaving invariant over any number of threads, lookups and schedules at atomic-operation granularity: every instance a thread has received for a name is the registered one and registrations are never replaced; hence all concurrent first users get the same instance (C26_unique) and it stays the one later lookups return (C26_stable). The pre-fix get-then-insert protocol is refuted by a two-thread schedule. Tie: 2-32 real threads behind a barrier in a fresh process per case; number of distinct instances per name and stability compared with the theorem's prediction.",
         "note": "Trusted: Lean kernel; interleaving model; atomicity of DashMap::entry and OnceLock; real-thread runs sample schedules only.",
         "design_ref": "DESIGN.md §4 C26",
+    },
+    "C20": {
+        "text": "Theorems: the token handed to the OS and read back from the event is the 64-bit id itself (round-trip, injective; the pre-fix 32-bit fold refuted by a witness); a wait for read readiness leaves the descriptor registered with the waiter's own token in every case (new, upgrade from write, re-wait by another waiter) and the readiness event of that descriptor reports exactly that token, nothing for descriptors without read interest. Tie: real poller + socketpairs, tokens with high/low/colliding-fold bit patterns, kernel table read from fdinfo, readable events' tokens compared. Known finding: one epoll registration per descriptor means a read waiter and a write waiter with different tokens share one token.",
+        "note": "Trusted: Lean kernel; selector model; epoll semantics as modelled (cross-checked against fdinfo every op); the event-loop thread's resume path above the selector is not exercised. Partial: prompt wake-up latency is runtime.",
+        "design_ref": "DESIGN.md §4 C20",
+    },
+    "C21": {
+        "text": "Invariant Cons (for every descriptor the kernel epoll entry exists exactly when a read or write interest is recorded, with exactly those interests) proved initial and preserved by add/del read/write, del, close and event delivery, hence for every history (C21_history); every epoll_ctl issued under the invariant succeeds; after close the number has no record and no kernel entry. Tie: every operation on a real poller, kernel table from /proc/self/fdinfo compared with the model's and with the union of outstanding interests.",
+        "note": "Trusted: as C20. One poller only (multi-loop sharing of the process-wide records is not covered); shutdown() is represented by the del_read/del_write it performs.",
+        "design_ref": "DESIGN.md §4 C21",
     },
 }
